@@ -310,6 +310,51 @@ def curve_shapes(tier):
                 continue
             seen.add((p, tuple(kv)))
             out.extend(variants([kv], [p], tier, 1))
+    return out + tall_curve_shapes(tier)
+
+
+def tall_curve_shapes(tier):
+    """the tall thin slice (alphabet.tall_kvs): few knot vectors, degree up to 6, up to 12 (thorough 20) control points"""
+    out = []
+    for p, kv in A.tall_kvs(1 if tier == 'quick' else 2):
+        out.append(A.shape_desc([kv], [p], False, 3, 'coded', tall=True))
+        out.append(A.shape_desc([kv], [p], True, 3, 'coded', 'coded', tall=True))
+    return out
+
+
+def tall_surface_shapes(tier):
+    """a tall direction (high degree or many control points) paired with a small one, in both orders"""
+    small = [(1, A.clamped_kv(1, [(0.5, 1)])), (2, A.clamped_kv(2, []))]
+    tall = [t for t in A.tall_kvs(1 if tier == 'quick' else 2, degrees=(1, 3, 4, 5),
+                                  counts=(7, 9) if tier == 'quick' else (7, 8, 9, 12))
+            if len(set(t[1])) > 2 or t[0] >= 4]
+    out = []
+    for i, (p, kv) in enumerate(tall):
+        sp, skv = small[i % 2]
+        for order in (0, 1):
+            kvs, degs = ([kv, skv], [p, sp]) if order == 0 else ([skv, kv], [sp, p])
+            rat = (i + order) % 2 == 1
+            out.append(A.shape_desc(kvs, degs, rat, 3, 'coded', 'coded', tall=True))
+    return out
+
+
+def huge_shapes(tier, pdims=(1, 2, 3)):
+    """one shape per parametric dimension with more than 256 control points in total and more than 9 in one direction
+    (dyadic uniform knots): sizes at which small-integer caching, one-digit string order, 8/16/64-element fast paths and
+    similar size thresholds of an implementation stop coinciding with the general code.  Rational and non-rational."""
+    out = []
+    u = A.uniform_kv
+    if 1 in pdims:
+        for rat in (False, True):
+            out.append(A.shape_desc([u(2, 258)], [2], rat, 3, 'coded', 'coded', tall=True, huge=True))
+    if 2 in pdims:
+        for rat in (False, True):
+            out.append(A.shape_desc([u(1, 17), u(2, 18)], [1, 2], rat, 3, 'coded', 'coded', tall=True, huge=True))
+        out.append(A.shape_desc([u(3, 19), u(1, 17)], [3, 1], True, 3, 'coded', 'coded', tall=True, huge=True))
+    if 3 in pdims:
+        for rat in (False, True):
+            out.append(A.shape_desc([u(1, 9), u(1, 5), u(2, 6)], [1, 1, 2], rat, 3, 'coded', 'coded', tall=True, huge=True))
+        out.append(A.shape_desc([u(1, 3), u(2, 4), u(1, 33)], [1, 2, 1], True, 3, 'coded', 'coded', tall=True, huge=True))
     return out
 
 
@@ -348,7 +393,7 @@ def surface_shapes(tier):
                 if len(ku) - pu == len(kv) - pv:
                     continue            # pairwise different sizes: any u/v mix-up changes an index
                 out.extend(variants([ku, kv], [pu, pv], tier, 2))
-    return out
+    return out + tall_surface_shapes(tier)
 
 
 def volume_shapes(tier):
